@@ -1,49 +1,30 @@
 (* Correspondence and monitor for C01, evaluated on cases written by harness/props/c01.py. *)
 From Coq Require Import NArith List Bool Arith.
 Import ListNotations.
-From HV Require Export lib.Harness model.Validity model.Builder spec.BuilderWFS model.Builder2 spec.Builder2WFS spec.Builder2LiveS model.Builder3 spec.Builder3S.
+From HV Require Export lib.Harness model.Validity model.DocIso model.Builder spec.BuilderWFS model.Builder2 spec.Builder2WFS spec.Builder2LiveS model.Builder3 spec.Builder3S.
 Local Open Scope N_scope.
 
 (* ------------------------------------------------------------------ equality of literals *)
-Fixpoint value_eqb (a b : value) {struct a} : bool :=
-  let fix go (l l' : list value) {struct l} : bool :=
-    match l, l' with
-    | [], [] => true
-    | x :: r, y :: s => value_eqb x y && go r s
-    | _, _ => false
-    end in
-  match a, b with
-  | VSum t g vs, VSum t' g' vs' => (t =? t') && (g =? g') && go vs vs'
-  | VTuple t vs, VTuple t' vs' => (t =? t') && go vs vs'
-  | VExt t, VExt t' => t =? t'
-  | VFun t k, VFun t' k' => (t =? t') && (k =? k')
-  | _, _ => false
-  end.
-Definition vop_eqb (a b : vop) : bool :=
-  match a, b with
-  | Module, Module | AliasDecl, AliasDecl | AliasDefn, AliasDefn => true
-  | FuncDefn f i o, FuncDefn f' i' o' => (f =? f') && row_eqb i i' && row_eqb o o'
-  | FuncDecl f, FuncDecl f' => f =? f'
-  | Const v, Const v' => value_eqb v v'
-  | Input t, Input t' | Output t, Output t' | ExitB t, ExitB t' => row_eqb t t'
-  | Call f i o, Call f' i' o' => (f =? f') && row_eqb i i' && row_eqb o o'
-  | CallIndirect i o f, CallIndirect i' o' f' => row_eqb i i' && row_eqb o o' && (f =? f')
-  | LoadConst t, LoadConst t' => t =? t'
-  | LoadFunc f i o t, LoadFunc f' i' o' t' => (f =? f') && row_eqb i i' && row_eqb o o' && (t =? t')
-  | DFG i o, DFG i' o' | CFG i o, CFG i' o' | Case i o, Case i' o' | ExtOp i o, ExtOp i' o' =>
-      row_eqb i i' && row_eqb o o'
-  | Block i r o s, Block i' r' o' s' => row_eqb i i' && rows_eqb r r' && row_eqb o o' && (s =? s')
-  | Conditional r a o s, Conditional r' a' o' s' => rows_eqb r r' && row_eqb a a' && row_eqb o o' && (s =? s')
-  | TailLoop a b c s, TailLoop a' b' c' s' => row_eqb a a' && row_eqb b b' && row_eqb c c' && (s =? s')
-  | Tag t r s, Tag t' r' s' => (t =? t') && rows_eqb r r' && (s =? s')
-  | _, _ => false
-  end.
+(* value_eqb_with / vop_eqb_with (model/DocIso.v) compare operations; the index of a function constant's nested HUGR is
+   compared by the relation given (N.eqb: same position in the side list) *)
+Definition value_eqb : value -> value -> bool := value_eqb_with N.eqb.
+Definition vop_eqb : vop -> vop -> bool := vop_eqb_with N.eqb.
 Definition vnode_eqb (a b : vnode) : bool := vop_eqb (n_op a) (n_op b) && (n_parent a =? n_parent b).
-Definition edge_eqb (a b : edge) : bool :=
-  (e_src a =? e_src b) && optN_eqb (e_soff a) (e_soff b) && (e_dst a =? e_dst b) && optN_eqb (e_doff a) (e_doff b).
-(* nodes in index order; the order of the edge list of a document is not promised: multiset *)
+(* index-exact comparison: nodes in index order; the order of the edge list of a document is not promised: multiset.
+   No longer used by `corr` (the property does not constrain the numbering of the nodes); kept for run/C15ValidRun.v *)
 Definition graph_eqb (a b : graph) : bool :=
   list_eqb vnode_eqb (g_nodes a) (g_nodes b) && perm_eqb edge_eqb (g_edges a) (g_edges b).
+
+(* ------------------------------------------------------------------ comparison up to the numbering of the nodes *)
+(* model/DocIso.v: the two documents are the same ordered tree of operations with the same port graph on top
+   (proofs/DocIsoP.v: graph_isob_sound; props/C01.v: C01_corr_is_isomorphism_check).  A function constant refers to its
+   nested HUGR by position in the side list; the positions follow the numbering too, so the two nested HUGRs named
+   are compared (up to numbering) instead of the positions. *)
+Definition doc_isob (g : graph) (gs : list graph) (h : graph) (hs : list graph) : bool :=
+  graph_isob (vop_eqb_with (fun k k' => match nthN gs k, nthN hs k' with
+                                        | Some a, Some b => graph_isob vop_eqb a b
+                                        | _, _ => false
+                                        end)) g h.
 
 (* CDoc: a document the implementation serialised (h), whether the document obtained through the package
    envelope is the same document, and the verdict of the design-time transcription (diagnostic only).
@@ -66,22 +47,30 @@ Inductive case :=
    with the table of interned polymorphic signatures *)
 | CProg3 (sigs : list sinfo) (p : prog3) (subs : list prog3) (h : vhugr) (same : bool) (fake : bool)
 (* the program of a CProg3 case alone: the premise of C01_builder3_child_tags (spec/Builder3S.v) *)
-| CPrem3 (p : prog3) (subs : list prog3).
+| CPrem3 (p : prog3) (subs : list prog3)
+(* the document obtained through the package envelope DIFFERS from the one to_json gives (the property promises that
+   what is serialised is valid, not that the two serialisations are the same text): c is the case of the to_json
+   document, h2 the envelope's document; both have to be valid *)
+| CBoth (c : case) (h2 : vhugr).
 
-(* the model run on the program gives the implementation's document *)
-Definition corr (c : case) : bool :=
+(* the model run on the program gives the implementation's document, up to the numbering of the nodes
+   (model/DocIso.v; the property does not say which index a node gets) *)
+Fixpoint corr (c : case) : bool :=
   match c with
-  | CProg p h _ _ => match run (v_tys h) p with Ok g => graph_eqb g (v_main h) | Err _ => false end
-  | CProg2 p h _ _ => match run2 (v_tys h) p with Ok g => graph_eqb g (v_main h) | Err _ => false end
+  | CProg p h _ _ => match run (v_tys h) p with Ok g => graph_isob vop_eqb g (v_main h) | Err _ => false end
+  | CProg2 p h _ _ => match run2 (v_tys h) p with Ok g => graph_isob vop_eqb g (v_main h) | Err _ => false end
   | CProg3 sigs p subs h _ _ =>
       match run3s (v_tys h) sigs p subs with
-      | Ok gs => graph_eqb (fst gs) (v_main h) && list_eqb graph_eqb (snd gs) (v_subs h)
+      | Ok gs => doc_isob (fst gs) (snd gs) (v_main h) (v_subs h) && (lenN (snd gs) =? lenN (v_subs h))
       | Err _ => false
       end
+  | CBoth c _ => corr c
   | _ => true
   end.
 
-Definition mon (c : case) : bool :=
+(* `same` (the envelope's document is literally the to_json document) is a diagnostic since CBoth exists: the harness
+   passes true and wraps the case in CBoth when the documents differ *)
+Fixpoint mon (c : case) : bool :=
   match c with
   | CDoc h same _ => same && valid h
   | CProg _ h same _ => same && valid h
@@ -92,6 +81,7 @@ Definition mon (c : case) : bool :=
   | CPrem2 _ _ => true
   | CProg3 _ _ _ h same _ => same && valid h
   | CPrem3 _ _ => true
+  | CBoth c h2 => mon c && valid h2
   end.
 
 (* the premises of C01_builder_valid (spec/BuilderWFS.v: wf_prog; and the type table) on an in-model program *)
